@@ -2,7 +2,7 @@
    Only property theorems here, each closed by `exact <lemma>`; proofs are in Proofs*.v; Link.v ties the character
    test of valid_sid to the source.  `fresh` is the random source (i-th identifier); the theorems that need it assume
    that it yields well-formed (fresh_ok) resp. pairwise distinct (fresh_inj) identifiers. *)
-From CppcmsV Require Import Base.Tac C06.Defs C06.Proofs C06.ProofsNum C06.ProofsMap C06.Proofs2 C06.Proofs3 C06.Proofs4 C06.Proofs5 C06.Proofs6 C06.Proofs7 C06.Proofs8 C06.Proofs10 C06.Proofs9 C06.Proofs11 C06.Proofs12 C06.Proofs13 C06.ProofsWin C06.ProofsWin2 C06.ProofsWin3 C06.Proofs14 C06.Proofs15 C06.Proofs16 C06.Proofs17 C06.Proofs18 C06.Proofs19 C06.Proofs20 C06.Proofs21.
+From CppcmsV Require Import Base.Tac C06.Defs C06.Proofs C06.ProofsNum C06.ProofsMap C06.Proofs2 C06.Proofs3 C06.Proofs4 C06.Proofs5 C06.Proofs6 C06.Proofs7 C06.Proofs8 C06.Proofs10 C06.Proofs9 C06.Proofs11 C06.Proofs12 C06.Proofs13 C06.ProofsWin C06.ProofsWin2 C06.ProofsWin3 C06.Proofs14 C06.Proofs15 C06.Proofs16 C06.Proofs17 C06.Proofs18 C06.Proofs19 C06.Proofs20 C06.Proofs21 C06.ProofsCodec.
 Local Open Scope N_scope.
 
 (* ------------------------------------------------------------------------------------------------------------
@@ -22,6 +22,32 @@ Print Assumptions load_data_total.
 Theorem load_data_wellformed : forall s m, load_data s = LOk m -> ssorted m.
 Proof. exact load_data_sorted. Qed.
 Print Assumptions load_data_wellformed.
+(* the domain of the codec with the bounds in the statement.  within_bounds x: the key is shorter than 2^10 = 1024 bytes and the
+   value shorter than 2^21 = 2097152 bytes - the capacities of the bit-fields key_size : 10 and data_size : 21 of struct packed (tied to
+   the source in section 9).  save_data is defined EXACTLY on the maps all of whose entries are within the bounds; on every such
+   (well-formed) map load_data inverts it; on every other map save_data refuses (the constructor of packed throws) - in particular a
+   value of exactly 2^21 bytes or a key of exactly 2^10 bytes is refused, it is not stored with a wrapped length. *)
+Theorem save_data_defined_exactly_within_bounds : forall m,
+  (exists blob, save_data m = Some blob) <-> Forall (fun x => blen (fst x) < 2 ^ 10 /\ blen (fst (snd x)) < 2 ^ 21) m.
+Proof. exact save_data_defined_iff. Qed.
+Print Assumptions save_data_defined_exactly_within_bounds.
+Theorem codec_roundtrip_on_exactly_the_bounded_maps : forall m, ssorted m ->
+  (Forall (fun x => blen (fst x) < 2 ^ 10 /\ blen (fst (snd x)) < 2 ^ 21) m -> exists blob, save_data m = Some blob /\ load_data blob = LOk m) /\
+  (~ Forall (fun x => blen (fst x) < 2 ^ 10 /\ blen (fst (snd x)) < 2 ^ 21) m -> save_data m = None).
+Proof. exact codec_exact_domain. Qed.
+Print Assumptions codec_roundtrip_on_exactly_the_bounded_maps.
+Theorem entry_at_the_bound_is_refused : forall k v e r,
+  blen k = 2 ^ 10 \/ blen v = 2 ^ 21 -> save_data ((k, (v, e)) :: r) = None.
+Proof. exact refused_at_the_bound. Qed.
+Print Assumptions entry_at_the_bound_is_refused.
+Example codec_bounds_nonvacuous :
+  within_bounds ([97], (repeat 46 1000, true)) /\ ~ within_bounds (repeat 107 1024, ([49], false)) /\
+  save_data [(repeat 107 1023, ([49], false))] <> None /\ save_data [(repeat 107 1024, ([49], false))] = None /\
+  save_data [(repeat 107 1025, ([49], false))] = None.
+Proof.
+  split; [split; vm_compute; reflexivity|]. split; [intros [H _]; vm_compute in H; discriminate H|].
+  split; [vm_compute; discriminate|]. split; vm_compute; reflexivity.
+Qed.
 Example codec_nonvacuous :
   let m := [([97], ([49; 50], true)); ([97; 98], ([], false)); ([98], ([0; 255], false))] in
   ssorted m /\ save_data m = Some [1;20;0;0;97;49;50; 2;0;0;0;97;98; 1;16;0;0;98;0;255] /\
@@ -1058,7 +1084,7 @@ Qed.
 
 (* ------------------------------------------------------------------------------------------------------------
    9. tie: the character class of valid_sid in the model is the one regenerated from src/session_sid.cpp *)
-From CppcmsV Require Import Base.CSem Base.Sweep C06.Link gen.Gen_sid.
+From CppcmsV Require Import Base.CSem Base.Sweep C06.Link gen.Gen_sid C06.LinkPacked gen.Gen_C06packed.
 Theorem sid_character_test_is_source : forall b, b < 256 -> g_low_x_digit (Z.of_N b) = low_xdigit b.
 Proof. exact link_low_xdigit. Qed.
 Print Assumptions sid_character_test_is_source.
@@ -1066,3 +1092,32 @@ Theorem wellformed_ids_pass_source_test : forall id, Forall (fun b => b < 256) i
   Forall (fun b => g_low_x_digit (Z.of_N b) = true) id /\ length id = 32%nat.
 Proof. exact link_sid_ok. Qed.
 Print Assumptions wellformed_ids_pass_source_test.
+
+(* tie of the entry codec: coq/gen/Gen_C06packed.v is regenerated on every run from the current text of struct packed / save_data /
+   load_data in src/session_interface.cpp (limit tests of packed::packed(ks,exp,ds), bit-field widths, bounds tests of load_data).
+   The limit tests refuse EXACTLY the sizes the bit-fields cannot hold (g_c06_*_field = what an assignment to the bit-field stores):
+   an off-by-one in a limit (>= 2^21 becoming > 2^21: a value of exactly 2 MiB would be stored with length 0 and the next load_data
+   would read its bytes as forged entries) or a changed field width breaks these theorems and the check reports the tie broken. *)
+Theorem packed_key_limit_is_field_capacity : forall ks, ks < 4294967296 ->
+  (g_c06_keylong (Z.of_N ks) = false <-> g_c06_key_field (Z.of_N ks) = Z.of_N ks).
+Proof. exact key_limit_is_field_capacity. Qed.
+Print Assumptions packed_key_limit_is_field_capacity.
+Theorem packed_value_limit_is_field_capacity : forall ds, ds < 4294967296 ->
+  (g_c06_vallong (Z.of_N ds) = false <-> g_c06_data_field (Z.of_N ds) = Z.of_N ds).
+Proof. exact value_limit_is_field_capacity. Qed.
+Print Assumptions packed_value_limit_is_field_capacity.
+(* the source's limit tests are the domain of the model's codec (entry_fits = within_bounds), its header word is the model's header,
+   and the three tests of load_data are the ones of the model's load_aux *)
+Theorem packed_limits_are_the_codec_domain : forall x,
+  entry_fits x = negb (g_c06_keylong (Z.of_N (blen (fst x)))) && negb (g_c06_vallong (Z.of_N (blen (fst (snd x))))).
+Proof. exact link_entry_fits. Qed.
+Print Assumptions packed_limits_are_the_codec_domain.
+Theorem packed_header_is_source_word : forall ks ex ds, ks < 1024 -> ds < 2097152 ->
+  header ks ex ds = le32 (Z.to_N (g_c06_word (Z.of_N ks) (if ex then 1 else 0)%Z (Z.of_N ds))).
+Proof. exact link_header. Qed.
+Print Assumptions packed_header_is_source_word.
+Theorem load_data_tests_are_source : forall b e ks ds : N,
+  g_c06_more (Z.of_N b) (Z.of_N e) = (b <? e) /\ g_c06_hdr (Z.of_N b) (Z.of_N e) = (b + 4 <=? e) /\
+  (b <= e -> ks < 1024 -> ds < 2097152 -> g_c06_fits (Z.of_N b) (Z.of_N e) (Z.of_N ks) (Z.of_N ds) = (ks + ds <=? e - b)).
+Proof. intros b e ks ds. split; [apply link_more|]. split; [apply link_hdr|apply link_fits]. Qed.
+Print Assumptions load_data_tests_are_source.
